@@ -38,6 +38,10 @@ package phttp
 //@ ensures [code-is-the-status-received] imp(calls(b.Client.Do) == 1 && result_of(b.Client.Do, 1) == nil, sample.fields[9] == result_of(b.Client.Do, 0).StatusCode)
 //@ ensures [failed-exchange-carries-its-error] imp(calls(b.Client.Do) == 1 && result_of(b.Client.Do, 1) != nil, sample.err == result_of(b.Client.Do, 1))
 //@ ensures [invalid-ammo-is-reported-not-sent] imp(ammo.IsInvalid() && (b.Connect == nil || result_of(b.Connect, 0) == nil), calls(b.Client.Do) == 0 && sample.fields[9] == 0)
+//@ ensures [auto-tag-only-when-enabled-and-wanted] imp(calls(b.Client.Do) == 1, iff(calls(autotag) == 1, b.Config.AutoTag.Enabled && (!b.Config.AutoTag.NoTagOnly || old(sample.tags) == "")))
+//@ ensures [ammo-tag-kept-without-auto-tag] imp(calls(b.Client.Do) == 1 && calls(autotag) == 0 && old(sample.tags) != "", sample.tags == old(sample.tags))
+//@ ensures [no-tag-means-EMPTY] imp(calls(b.Client.Do) == 1 && calls(autotag) == 0 && old(sample.tags) == "", sample.tags == "__EMPTY__")
+//@ at call autotag assert [first-uri-elements-of-the-request-path] arg(depth) == b.Config.AutoTag.URIElements && arg(URL) == result_of(ammo.Request, 0).URL
 //@ ensures [tag-is-never-empty] imp(b.Connect == nil || result_of(b.Connect, 0) == nil, sample.tags != "")
 //@ at call b.Client.Do assert [the-ammo-request-is-sent] arg(req) == result_of(ammo.Request, 0) || b.Config.HTTPTrace.TraceEnabled
 //@ at call b.Aggregator.Report assert [the-ammo-sample-is-reported] arg(a0) == result_of(ammo.Request, 1)
